@@ -1,24 +1,35 @@
 """C05 — graceful shutdown drains and leaves nothing behind."""
 from ..ech import H
 
-LEVEL = "other"
+LEVEL = "model_checking"
+ENGINE = "E-CH+E-TS"
 EXPLANATION = (
+    "E-TS slices: the real shutdown(wait=False) racing with the manager thread's wait on an idle pool (the manager must "
+    "learn about the request) and with a worker leaving while work is pending (bounded model checking over all "
+    "interleavings, replayed on the real code). "
     "Step contracts on the real methods (CrossHair/z3): shutdown_workers (every exit lock released exactly once, "
     "exactly one sentinel per worker, none when nobody is alive, never a blocking put, Full retried), "
     "join_executor_internals (queues and wakeup closed, every worker joined, nothing registered), "
     "flag_executor_shutting_down without kill_workers (nothing failed, nobody killed), submit after shutdown raises "
     "ShutdownExecutorError.")
 ASSUMPTIONS = [
-    "the schedule quantifier (where shutdown lands relative to dispatch/completion/time-outs) is NOT searched: no concurrent model is claimed for C05; genuine defects F1/F2 (recorded in known_findings.json, real-process repros under findings/) live in exactly that part",
+    "the schedule quantifier is searched only in two slices (shutdown(wait=False) vs idle manager; vs a leaving worker); other placements of shutdown only through the step contracts; finding F1 (fixed) came from the second slice",
     "Full is raised a symbolic number of times (<=3) and then the queue drains",
 ]
 M = "lokyverif.harness.c02_broken"
 PE = "loky.process_executor:_ExecutorManagerThread."
 
 
+def SL(name, builder, K, timeout_s=1500, params=None):
+    return ("lokyverif.ets.units_exec", "slice_unit", dict(prop="C05", name=name, builder=builder, K=K,
+                                                            timeout_s=timeout_s, params=params))
+
+
 def units(tier):
     t = 900 if tier == "thorough" else 300
     return [
+        SL("slice.shutdown_nowait_vs_wait", "x5_shutdown_nowait_vs_wait", 30),
+        SL("slice.worker_exit_vs_shutdown_nowait", "x3_worker_exit_vs_submit", 44, params={"with_user": False, "shutdown_thread": True}),
         H("C05", M, "check_shutdown_workers", t, [PE + "shutdown_workers", PE + "get_n_children_alive"], "0..3 workers each alive or not, Full raised 0..3 times"),
         H("C05", M, "check_join_internals", t, [PE + "join_executor_internals"], "0..3 workers each alive or not"),
         H("C05", M, "check_flag_shutting_down", t, [PE + "flag_executor_shutting_down"], "0..3 pending, 0..3 workers, kill flag symbolic"),
